@@ -2,6 +2,7 @@ package tcp
 
 import (
 	"io"
+	"net"
 
 	gkm "github.com/go-kit/kit/metrics"
 )
@@ -36,4 +37,14 @@ func copyBuffer(dst io.Writer, src io.Reader, c gkm.Counter) (err error) {
 		}
 	}
 	return err
+}
+
+// closeWrite tells the peer of c that no more data will come: connections
+// which can be half-closed keep their read side open, all others are closed.
+func closeWrite(c net.Conn) {
+	if cw, ok := c.(interface{ CloseWrite() error }); ok {
+		cw.CloseWrite()
+		return
+	}
+	c.Close()
 }
